@@ -214,7 +214,16 @@ def _nontrivial(t):
     return len(set((k, d) for _, k, d in t)) > 1
 
 
+FORM_SPECS = [
+    [("2:1111", "N0", "d1")],
+    [("2:1110", "N0", "d1"), ("2:1111", "L90", "d1")],
+    [("2:1111", "N0", "d1"), ("2:1011", "Nx", "d2"), ("2:1111", "L20", "d1")],
+]
+
+
 def cases(tier):
+    for k in range(len(FORM_SPECS)):
+        yield Case("forms:%d" % k, {"kind": "forms", "k": k}, True)
     for t in _tuples(tier):
         yield Case(case_id(t), {"sensors": [list(s) for s in t]}, _nontrivial(t))
 
@@ -316,6 +325,8 @@ class _Agg(object):
 
 def evaluate(p):
     o = Out()
+    if p.get("kind") == "forms":
+        return _forms(o, p["k"])
     spec = [tuple(s) for s in p["sensors"]]
     n = len(spec)
     base = "5" * n
@@ -407,4 +418,59 @@ def evaluate(p):
                 diff = numpy.where(both_nan, 0.0, Mp.astype(float) - ser.astype(float))
                 o.close("mp_path_agrees", _maxabs(diff) / max(_maxabs(numpy.nan_to_num(ser)), 1e-300), TOL_MP)
         o.outcome(numpy.round(M0 / max(_maxabs(M0), 1e-300), 4))
+    return o
+
+
+def _forms(o, k):
+    """The same configuration written in every common argument form - lists, tuples, numpy arrays, masks stored
+    as float (what aotools.circle returns), bool or small ints, whole-number parameters given as Python ints -
+    must give the bit-identical matrix: the matrix is a function of the configuration, not of its spelling."""
+    from aotools.turbulence import slopecovariance as sc
+    spec = [tuple(x) for x in FORM_SPECS[k]]
+    spec = [s for s in spec if s[1] in KINDS]
+    sensors = _sensor_dicts(spec, "5" * len(spec))
+    layers = [LAYERS[0], LAYERS[1]]
+
+    def call(masks, D, ds, alts, pos, wls, lh, lr, lL):
+        cm = sc.CovarianceMatrix(len(sensors), masks, D, ds, alts, pos, wls, len(layers), lh, lr, lL, 1)
+        with numpy.errstate(all="ignore"):
+            return numpy.array(cm.make_covariance_matrix())
+    base_args = dict(
+        masks=[s["mask"].copy() for s in sensors], D=D_TEL, ds=[s["d"] for s in sensors],
+        alts=[s["h_gs"] for s in sensors], pos=[list(s["theta"]) for s in sensors], wls=[s["lam"] for s in sensors],
+        lh=[l[0] for l in layers], lr=[l[1] for l in layers], lL=[l[2] for l in layers])
+    base = call(**base_args)
+    o.stat("lib_calls", 1)
+
+    def whole(v):
+        return int(v) if float(v) == int(v) else v
+    forms = {
+        "numpy_arrays": dict(ds=numpy.array(base_args["ds"]), alts=numpy.array(base_args["alts"], dtype=float),
+                             pos=numpy.array(base_args["pos"], dtype=float), wls=numpy.array(base_args["wls"]),
+                             lh=numpy.array(base_args["lh"]), lr=numpy.array(base_args["lr"]), lL=numpy.array(base_args["lL"])),
+        "tuples": dict(ds=tuple(base_args["ds"]), alts=tuple(base_args["alts"]), pos=tuple(tuple(x) for x in base_args["pos"]),
+                       wls=tuple(base_args["wls"]), lh=tuple(base_args["lh"]), lr=tuple(base_args["lr"]), lL=tuple(base_args["lL"])),
+        "masks_float": dict(masks=[m.astype(float) for m in base_args["masks"]]),
+        "masks_bool": dict(masks=[m.astype(bool) for m in base_args["masks"]]),
+        "masks_int8": dict(masks=[m.astype(numpy.int8) for m in base_args["masks"]]),
+        "masks_fortran": dict(masks=[numpy.asfortranarray(m) for m in base_args["masks"]]),
+        "whole_numbers_as_int": dict(D=whole(D_TEL), ds=[whole(d) for d in base_args["ds"]],
+                                     alts=[whole(a) for a in base_args["alts"]],
+                                     pos=[[whole(c) for c in q] for q in base_args["pos"]],
+                                     lh=[whole(h) for h in base_args["lh"]], lL=[whole(L) for L in base_args["lL"]]),
+        "numpy_scalars": dict(D=numpy.float64(D_TEL), ds=[numpy.float64(d) for d in base_args["ds"]],
+                              lr=[numpy.float64(r) for r in base_args["lr"]]),
+    }
+    for name, over in forms.items():
+        a = dict(base_args)
+        a.update(over)
+        try:
+            got = call(**a)
+            o.stat("lib_calls", 1)
+            ok = got.shape == base.shape and got.dtype == base.dtype and got.tobytes() == base.tobytes()
+            o.check("same_matrix_for_every_argument_form", ok, sub=name,
+                    measure=None if got.shape != base.shape else _maxabs(got - base))
+        except Exception as e:
+            o.check("same_matrix_for_every_argument_form", False, sub=name,
+                    detail="%s: %s" % (type(e).__name__, str(e)[:200]))
     return o
